@@ -30,7 +30,22 @@ func (ri RawInstruction) Assemble() (RawInstruction, error) { return ri, nil }
 
 // Disassemble parses ri into an Instruction and returns it. If ri is
 // not recognized by this package, ri itself is returned.
+//
+// An Instruction other than ri is only returned if assembling it
+// reproduces ri exactly, so that no opcode bit or operand field of ri
+// is silently dropped.
 func (ri RawInstruction) Disassemble() Instruction {
+	ins := ri.disassemble()
+	if _, ok := ins.(RawInstruction); ok {
+		return ri
+	}
+	if back, err := ins.Assemble(); err != nil || back != ri {
+		return ri
+	}
+	return ins
+}
+
+func (ri RawInstruction) disassemble() Instruction {
 	switch ri.Op & opMaskCls {
 	case opClsLoadA, opClsLoadX:
 		reg := Register(ri.Op & opMaskLoadDest)
@@ -57,8 +72,10 @@ func (ri RawInstruction) Disassemble() Instruction {
 			}
 			return LoadScratch{Dst: reg, N: int(ri.K)}
 		case opAddrModeAbsolute:
-			if ri.K > extOffset+0xffffffff {
-				return LoadExtension{Num: Extension(-extOffset + ri.K)}
+			// LoadExtension assembles to a 4-byte load into A, and ExtLen
+			// has its own addressing mode.
+			if ext := Extension(-extOffset + ri.K); ri.K > extOffset+0xffffffff && sz == 4 && reg == RegA && ext != ExtLen {
+				return LoadExtension{Num: ext}
 			}
 			return LoadAbsolute{Size: sz, Off: ri.K}
 		case opAddrModeIndirect:
